@@ -131,19 +131,18 @@ func (o *operations) start() {
 	defer func() {
 		o.mu.Lock()
 		defer o.mu.Unlock()
-		// this wil lbe the most recent busy chan
-		close(o.busyCh)
-
-		if o.ops.Len() == 0 || o.isClosed {
-			o.busyCh = nil
+		if o.ops.Len() != 0 {
+			// either a new operation was enqueued while we
+			// were busy, or an operation panicked. Accepted
+			// operations run even if the queue was closed meanwhile.
+			go o.start()
 
 			return
 		}
 
-		// either a new operation was enqueued while we
-		// were busy, or an operation panicked
-		o.busyCh = make(chan struct{})
-		go o.start()
+		// the queue is drained: release GracefulClose
+		close(o.busyCh)
+		o.busyCh = nil
 	}()
 
 	fn := o.pop()
